@@ -139,14 +139,34 @@ type absStack struct {
 }
 
 // prevKey identifies a frame as the thing a later push covers.
-func (s absStack) prevKey() string {
+func (s absStack) prevKey() string { return s.chain(1) }
+
+// chain: the frame's own identity followed by what it covers, limited to k
+// frames ("" unknown, "[]" the empty stack).
+func (s absStack) chain(k int) string {
 	switch {
 	case s.Unknown:
 		return ""
 	case s.Empty:
 		return "[]"
 	}
-	return fmt.Sprintf("%s/%d#%d", s.Top.String(), s.Saved, s.Tag)
+	own := fmt.Sprintf("%s/%d#%d", s.Top.String(), s.Saved, s.Tag)
+	if k <= 1 || s.Prev == "" {
+		return own
+	}
+	segs := strings.Split(own+"<"+s.Prev, "<")
+	if len(segs) > k {
+		segs = segs[:k]
+	}
+	return strings.Join(segs, "<")
+}
+
+// covers: frame c can be what this frame was pushed over.
+func (s absStack) covers(c absStack) bool {
+	if s.Prev == "" {
+		return true
+	}
+	return c.chain(strings.Count(s.Prev, "<")+1) == s.Prev
 }
 
 func (s absStack) String() string {
